@@ -147,8 +147,18 @@ def inv_atoms(w, a, base):
     for pc, st in built_states(w, a, prep, "build", base, ext=EXT_ATOMS):
         eqs = [eq_term(w, a.fields[d], st.fields[d]) for d in A_DERIVED]
         conj.append(z3.Implies(z3.And(*pc) if pc else z3.BoolVal(True), z3.And(*eqs)))
-    built = z3.And(flag_term(k.fields["is_built"]), *(conj or [z3.BoolVal(True)]))
-    parts.append(z3.Implies(flag_term(a.fields["is_built"]), built))
+    # SCF.atoms deep-copies an Atoms object WITHOUT rebuilding it when Atoms.is_built, kpts.is_built and occ.is_filled are all
+    # set, so the conjunction of the three flags must imply that every part is up to date: the occupations belong to the
+    # current k-point weights and the grid quantities are those of the current inputs
+    o = a.fields["occ"]
+    from pycv.wp.execute import _BUILTINS
+
+    wk_as_occ_stores_it = w.uf("xp.asarray[dtype]", [k.fields["_wk"], _BUILTINS["float"]], "val")  # occ.wk = kpts.wk runs the wk setter
+    built = z3.And(eq_term(w, o.fields["_wk"], wk_as_occ_stores_it), *(conj or [z3.BoolVal(True)]))
+    # (occ.is_filled only governs the fillings, which are the Occupations invariant; the weights handed to occ and the grid
+    # quantities must be current whenever the Atoms and KPoints flags are set)
+    all_flags = z3.And(flag_term(a.fields["is_built"]), flag_term(k.fields["is_built"]))
+    parts.append(z3.Implies(all_flags, built))
     return z3.And(*parts)
 
 
@@ -260,7 +270,7 @@ def ghost_update(cls, member, before, after):
     kb, ka = kp(before), kp(after)
     if ka is None:
         return
-    if member in ("trs", "set_k"):
+    if member in ("trs", "set_k", "kpts.trs"):
         ka.fields["__reduced"] = True
     elif member == "build" or member.startswith("set:") or member in ("recenter", "clear"):
         # a rebuild (is_built was False) produces the generic mesh again
@@ -363,12 +373,78 @@ def explain(w, r, cls):
               inv_kpoints(w, k, base) if cls == "KPoints" else inv_kpoints_c(w, k, base))
     if cls == "Atoms":
         check("kpts.a differs from the cell of the Atoms object", eq_term(w, k.fields["a"], s.fields["_a"]))
+        o = s.fields["occ"]
+        from pycv.wp.execute import _BUILTINS
+
+        allf = z3.And(flag_term(s.fields["is_built"]), flag_term(k.fields["is_built"]))
+        check("Atoms.is_built and kpts.is_built but occ.wk is not kpts.wk (Atoms was not rebuilt after the k-points changed)",
+              z3.Implies(allf,
+                         eq_term(w, o.fields["_wk"], w.uf("xp.asarray[dtype]", [k.fields["_wk"], _BUILTINS["float"]], "val"))))
         if not msgs:
-            msgs.append("Atoms: is_built but a derived field (grid, G-vectors, masks, structure factor, weights, fillings) "
+            msgs.append("Atoms: is_built but a derived field (grid, G-vectors, masks, structure factor) "
                         "is not the one build() computes from the current inputs")
     if cls == "Occupations":
         check("Occupations: is_filled but fillings are not those of fill() on the current inputs", inv_occ(w, s, base))
     return "; ".join(msgs) or "invariant not re-established"
+
+
+class Establishes:
+    """build() / fill() started in ANY state satisfying the invariant ends with every status flag set (so that, together
+    with the invariant, all derived quantities are those of the current inputs)."""
+
+    def __init__(self, cls, member, flags):
+        self.cls, self.member, self.flags = cls, member, flags
+
+    def __call__(self, ob, tier, seed):
+        gen, inv = GEN[self.cls]
+        try:
+            for case in CASES[self.cls]:
+                w = World()
+                s0 = gen(w, "s", case)
+                base = typing(self.cls, s0)
+                pre = inv(w, s0, base)
+
+                def run(it, _s0=s0):
+                    s = clone(_s0)
+                    run_method(it, s, self.member)
+                    return None, s
+
+                for r in explore(w, run, assumptions=base + [pre], ext=(EXT_ATOMS if self.cls == "Atoms" else EXT)):
+                    if r.outcome != "return":
+                        continue
+                    goal = []
+                    for path in self.flags:
+                        o = r.state
+                        for p in path.split("."):
+                            o = o.fields[p]
+                        goal.append(flag_term(o))
+                    v, model = check_valid(w, r.path.pc, z3.And(*goal))
+                    if v == "proved":
+                        continue
+                    if v == "unknown":
+                        return Result(UNDECIDED, backend="z3", detail=str(model))
+                    pcs = [str(c)[:70] for c in r.path.pc[len(base) + 1:]][:5]
+                    wit = dict(cls=self.cls, member=self.member, establishes=True, path=pcs)
+                    ok, info = self.replay(wit)
+                    return Result(REFUTED, backend="z3", witness=wit, replayed=ok, replay_info=info, solver_output=str(model)[:800],
+                                  detail=f"{self.cls}.{self.member}() can return without {self.flags} all set (path: {pcs})")
+        except OutsideSubset as e:
+            return Result(UNDECIDED, backend="engine-Z", detail=f"outside subset: {e}")
+        return Result(DISCHARGED, backend="z3")
+
+    def replay(self, wit):
+        import eminus
+        from eminus import Atoms
+
+        eminus.config.backend = "numpy"
+        eminus.config.verbose = "critical"
+        a = Atoms("Ne", [[0.0, 0.0, 0.0]], ecut=2, a=6.0)
+        a.build()
+        a.occ.bands = 6  # an Occupations input changed behind a built Atoms object
+        a.build()
+        bad = not (a.is_built and a.kpts.is_built and a.occ.is_filled)
+        return bool(bad), dict(history="Atoms('Ne'); build(); occ.bands = 6; build()", is_built=bool(a.is_built),
+                               kpts_is_built=bool(a.kpts.is_built), occ_is_filled=bool(a.occ.is_filled), Nstate=int(a.occ.Nstate))
 
 
 class Persists:
@@ -469,17 +545,30 @@ def _register():
         "Atoms": [("set:pos", 1, {}), ("set:ecut", 1, {0: ("real", {})}), ("set:a", 1, {}), ("set:spin", 1, {0: ("int", {})}),
                   ("set:charge", 1, {0: ("int", {})}), ("set:unrestricted", 1, {0: ("bool", {})}), ("set:f", 1, {0: ("val", {"types": ("list",)})}),
                   ("set:s", 1, {}), ("set:Z", 1, {0: ("val", {"types": ("list",)})}), ("build", 0, {}), ("recenter", 0, {}),
-                  ("set_k", 1, {}), ("clear", 0, {})],
+                  ("set_k", 1, {}), ("clear", 0, {}),
+                  # members of the parts called directly on a built Atoms object (atoms.occ.bands = ..., atoms.kpts.kmesh = ...)
+                  ("occ.set:bands", 1, {0: ("int", {})}), ("occ.set:smearing", 1, {0: ("real", {})}), ("occ.set:Nspin", 1, {0: ("int", {})}),
+                  ("kpts.set:kmesh", 1, {}), ("kpts.set:kshift", 1, {}), ("kpts.set:gamma_centered", 1, {0: ("bool", {})}),
+                  ("kpts.set:Nk", 1, {0: ("int", {})}), ("kpts.trs", 0, {}), ("kpts.build", 0, {})],
     }
     for cls, ms in members.items():
         for member, nargs, kinds in ms:
             nm = member.replace("set:", "")
-            fn = f"{mod[cls]}:{cls}.{nm}" if not member.startswith("set:") else f"{mod[cls]}:{cls}"
+            if "." in nm and cls == "Atoms":
+                sub = {"occ": ("eminus.occupations", "Occupations"), "kpts": ("eminus.kpoints", "KPoints")}[nm.split(".")[0]]
+                fn = f"{sub[0]}:{sub[1]}"
+            else:
+                fn = f"{mod[cls]}:{cls}.{nm}" if not member.startswith("set:") else f"{mod[cls]}:{cls}"
             funcs = [fn, f"{mod[cls]}:{cls}.build" if cls != "Occupations" else f"{mod[cls]}:{cls}.fill"]
             register(Obligation(name=f"C19.{cls}.{nm}.preserves_inv", prop=PROP, engine="Z", functions=funcs,
                                 run=PreservesInv(cls, member, nargs, kinds), budget={"quick": 120, "thorough": 600},
                                 assumes=("engineZ", "z3"),
                                 doc=f"{{Inv}} {cls}.{nm} {{Inv}}: is_built/is_filled implies every derived field equals the value build()/fill() computes from the current inputs"))
+    for cls, member, flags in (("KPoints", "build", ["is_built"]), ("Occupations", "fill", ["is_filled"]),
+                               ("Atoms", "build", ["is_built", "kpts.is_built", "occ.is_filled"])):
+        register(Obligation(name=f"C19.{cls}.{member}.establishes_flags", prop=PROP, engine="Z", functions=[f"{mod[cls]}:{cls}.{member}"],
+                            run=Establishes(cls, member, flags), assumes=("engineZ", "z3"),
+                            doc=f"{cls}.{member}() from any state satisfying the invariant ends with {flags} set"))
     register(Obligation(name="C19.KPoints.trs.persists_through_build", prop=PROP, engine="Z",
                         functions=["eminus.kpoints:KPoints.trs", "eminus.kpoints:KPoints.build"],
                         run=Persists("KPoints", "trs", 0, ["_k", "_wk", "_Nk"]), assumes=("engineZ", "z3"),
